@@ -2,3 +2,4 @@ pub mod merkle;
 pub mod air_monitor;
 pub mod opnames;
 pub mod tracecols;
+pub mod field;
